@@ -36,7 +36,11 @@ func c02Stream(cs *drv.Case, vals []ref.Value, encs [][]byte, trail []byte, sche
 
 	// (1) ReaderSkipDecoder over the plain io.Reader: must not read ahead
 	func() {
-		src := mk(0)
+		src := mk(cs.R.Intn(3))
+		if cs.R.Intn(6) == 0 && len(stream) < 3000 {
+			src.ZeroRun = 1 + cs.R.Intn(3) // many empty reads inside one value, with progress in between
+			src.Budget += src.ZeroRun * (len(stream) + 100)
+		}
 		if len(stream) <= 3000 && sched != doubles.SchedOne && cs.R.Intn(2) == 0 {
 			// the reader itself uses the shared pool for scratch space while the decoder is mid-value
 			src.Churn = func() { san.PoolChurn(8192) }
@@ -64,6 +68,9 @@ func c02Stream(cs *drv.Case, vals []ref.Value, encs [][]byte, trail []byte, sche
 		cs.C.Obs("reader-skip-decoder values", int64(len(encs)))
 		if src.ErrDelivered {
 			cs.C.Obs("eof delivered during value", 1)
+		}
+		if src.EndReads > 0 {
+			fail("skip-demands-more-than-the-value", "ReaderSkipDecoder", len(encs), fmt.Sprintf("%d Read calls after the source had delivered every byte of the values", src.EndReads))
 		}
 	}()
 
@@ -99,6 +106,10 @@ func c02Stream(cs *drv.Case, vals []ref.Value, encs [][]byte, trail []byte, sche
 				return
 			}
 		}
+		if src.EndReads > 0 {
+			fail("skip-demands-more-than-the-value", "SkipDecoder/DefaultReader", len(encs), fmt.Sprintf("%d Read calls after the source had delivered every byte of the values (would block on a live connection)", src.EndReads))
+			return
+		}
 		tr, err := dr.Next(len(trail))
 		if err != nil || !bytes.Equal(tr, trail) {
 			fail("skip-trailing-bytes", "SkipDecoder/DefaultReader", len(encs), fmt.Sprintf("trailing bytes not delivered intact: err=%v", err))
@@ -123,6 +134,10 @@ func c02Stream(cs *drv.Case, vals []ref.Value, encs [][]byte, trail []byte, sche
 				fail("skip-readlen", "BufferReader.Skip/DefaultReader", k, fmt.Sprintf("ReadLen %d / Readn %d after values totalling %d", dr.ReadLen(), br.Readn(), pos))
 				return
 			}
+		}
+		if src.EndReads > 0 {
+			fail("skip-demands-more-than-the-value", "BufferReader.Skip/DefaultReader", len(encs), fmt.Sprintf("%d Read calls after the source had delivered every byte of the values", src.EndReads))
+			return
 		}
 		tr, err := dr.Next(len(trail))
 		if err != nil || !bytes.Equal(tr, trail) {
